@@ -263,7 +263,7 @@ class _C08(_RulesBase):
             "boundaries, out-of-range values in [-70000,70000] incl. 256k+r aliases, optional leading zeros / '+'; range lists of <=6 ranges in every spelling ('a','a]','a-b','a-b]','-(a-b)','-(a-b])') "
             "spanning <=10^5 integers; malformed texts (wrong separator, non-numeric field, missing/extra part, unknown unit); unknown rule types. The generator attaches what the property demands "
             "(acc:<value> / rej / bad) and the oracle evaluates it on the real code; the model's answer is compared line by line.")
-    assumptions = ["strconv.ParseInt modelled as sign + digits without the int64 range check (digit runs > 18: `unmodelled`); strconv.ParseFloat modelled on plain decimals only; "
+    assumptions = ["strconv.ParseInt modelled as sign + digits without the int64 range check (a number beyond 2^63-1: `unmodelled`, totality compared only); strconv.ParseFloat modelled on plain decimals only; "
                    "encoding/json modelled on the documented flat object only (everything else `unmodelled`, compared for totality only)"]
 
     def streams(self, tier, rng):
